@@ -2,5 +2,5 @@
 # re-run every kept seed (seeded/Cxx-k) against the current checks; prints one line per seed
 OUT=${1:-/tmp/reseed}
 mkdir -p $OUT
-ls -d /verif/seeded/C??-? | xargs -P 4 -I{} bash -c 'd={}; id=$(basename $d); p=${id%%-*}; SKIP_TESTS=1 LINES_=2 /verif/tools/eval_seed.sh $d/patch.diff $d/demo.py $p > '$OUT'/$id.txt 2>&1'
+ls -d /verif/seeded/C??-* | xargs -P 4 -I{} bash -c 'd={}; id=$(basename $d); p=${id%%-*}; SKIP_TESTS=1 LINES_=2 /verif/tools/eval_seed.sh $d/patch.diff $d/demo.py $p > '$OUT'/$id.txt 2>&1'
 for f in $OUT/C*.txt; do echo "$(basename $f .txt): $(grep -m1 'VIOLATION\|^OK' $f | sed 's/replay=[^ ]*//' | cut -c1-90)"; done
